@@ -73,7 +73,15 @@ def gen_cases(rng, tier):
         for md, pl in [(True, True), (True, False), (False, True), (False, False)]:
             for via in ("explode", "substitute"):
                 for mdv in ([0, 1, 2, False] if md else [None]):
-                    cases.append({"kind": "both", "md": md, "pl": pl, "via": via, "bt": bt, "mdv": mdv})
+                    for recv in ("h", "single", "single_weighted", "zero_single", "empty", "pool_single"):
+                        cases.append({"kind": "both", "md": md, "pl": pl, "via": via, "bt": bt, "mdv": mdv, "recv": recv})
+        # illegal limits given to the deprecated spellings, on receivers of every size (a one-faced histogram included)
+        for recv in ("h", "single", "single_weighted", "zero_single", "pool_single"):
+            for bad in ([3, 2], [-1, 2], [1, 1], [0, 1]):
+                for via in ("explode", "substitute"):
+                    cases.append({"kind": "badlimit", "bad": bad, "float": bad[0] % 2 == 1 and bad != [1, 1], "via": via, "recv": recv, "bt": bt})
+            for via in ("explode", "substitute"):
+                cases.append({"kind": "badlimit", "bad": None, "md": -2, "via": via, "recv": recv, "bt": bt})
         for none, ns in [(True, 0), (True, 1), (True, 2), (False, 0), (False, 1)]:
             for style in ("tuple", "list", "iterator", "generator", "filter"):
                 cases.append({"kind": "rollnone", "none": none, "ns": ns, "bt": bt, "style": style})
@@ -129,6 +137,12 @@ def py_arg(a):
     if k == "str":
         return "2"
     return None
+
+
+def _receiver(name, h):
+    from dyce import H, P
+    return {"h": h, "single": H({6: 1}), "single_weighted": H({3: 4}), "zero_single": H({2: 0}), "empty": H({}),
+            "pool_single": P(H({5: 2}))}[name or "h"]
 
 
 def impl_run(case):
@@ -214,16 +228,29 @@ def impl_run(case):
             else:
                 _P(h).within(lo, hi, _P())
             out = {"ok": 0}
+        elif k == "badlimit":
+            recv_ = _receiver(case["recv"], h)
+            if case["bad"] is None:
+                kw = {"max_depth": case["md"]}
+            else:
+                q_ = Fraction(*case["bad"])
+                kw = {"precision_limit": float(q_) if case.get("float") else q_}
+            if case["via"] == "explode":
+                recv_.explode(**kw)
+            else:
+                recv_.substitute(lambda hh, o: o, **kw)
+            out = {"ok": 0}
         elif k == "both":
             kw = {}
             if case["md"]:
                 kw["max_depth"] = case.get("mdv", 1)
             if case["pl"]:
                 kw["precision_limit"] = Fraction(1, 2)
+            recv_ = _receiver(case.get("recv"), h)
             if case["via"] == "explode":
-                h.explode(**kw)
+                recv_.explode(**kw)
             else:
-                h.substitute(lambda hh, o: o, **kw)
+                recv_.substitute(lambda hh, o: o, **kw)
             out = {"ok": 0}
         elif k == "roll_lazy_fail":
             # a Roll built from a lazy iterable that hits a rejected call part-way: the construction fails and the outcomes
@@ -349,6 +376,8 @@ def coq_check(case, r):
         return f"chk_guard_unit (both_limits_guard {'true' if case['md'] else 'false'} {'true' if case['pl'] else 'false'}) {ok} {e}"
     if k == "rollnone":
         return f"chk_guard_unit (roll_outcome_guard {'true' if case['none'] else 'false'} {cnat(case['ns'])}) {ok} {e}"
+    if k == "badlimit":
+        return None          # the limit grammar is covered by chk_limit_guard; here the receiver varies (oracle: always rejected)
     if k == "roll_lazy_fail":
         return None          # no model counterpart: decided by the oracle (the rejection leaves the outcomes usable)
     if k == "mech_reject":
@@ -418,6 +447,8 @@ def oracle(case):
         return {"exc": ["ValueError"]} if (case["none"] and case["ns"] == 0) else {"ok": 0}
     if k == "adoptnone":
         return {"exc": ["ValueError"]} if (case["ns"] == 0 and case["mode"] != "append") else {"ok": 0}
+    if k == "badlimit":
+        return {"exc": ["ValueError"]}
     if k == "roll_lazy_fail":
         return {"ok": 0}
     if k == "mech_reject":
